@@ -1,11 +1,19 @@
 import XrsVerif.Proofs.Local
+import XrsVerif.Gen.LocalFacts
 /-
   C17 -- Local operators are per-cell functions of the layers, NaN-absorbing.
 
   Model: `Model/Local.lean` (hand model of xrspatial/local.py with the lock-step iteration in
-  index order, i.e. the code repaired by fixes/D11-…; tie = correspondence run, harness/corr_C17.py,
-  over memory layouts C / F / strided).  `V = Option Rat`, `none` = NaN; exact arithmetic
+  index order, i.e. the code repaired by fixes/D11-…).  `V = Option Rat`, `none` = NaN; exact arithmetic
   (`std` is modelled by the population variance, the square root is taken by the harness).
+  Tie: (1) `Gen/LocalFacts.lean`, regenerated from the source by harness/facts_local.py on every run: for every
+  operator the `np.nditer` order and the frame around the per-cell code, the NaN test, the comparison of the
+  frequency operators, the `+ 1` of the positions, the `- 1` / bound of rank, the numbering of combine, the
+  `funcs` table -- the theorems of the first section require the canonical shapes and prove that their
+  interpretation (`freqCellS`, `posCellS`, `rankCellS`, `combineS`) is the hand model; `nan_absorbs`, `freq_sum`,
+  `lowest_first`, `highest_first`, `rank_is_sorted_nth`, `rank_beyond`, `combine_eq_spec` are stated for that
+  interpretation of the *generated* shapes; (2) the correspondence run, harness/corr_C17.py, over memory
+  layouts C / F / strided and the edge-value families.
 
   A "cell" is `cellAt layers i`: the tuple of the selected layers' values at flat row-major
   position `i`.  A tuple without NaN is `xs.map some` for its list of numbers `xs`
@@ -14,6 +22,61 @@ import XrsVerif.Proofs.Local
 set_option linter.unusedVariables false
 namespace XrsVerif.C17
 open XrsVerif XrsVerif.Local
+
+/-! ### the source has the shape the model assumes (facts generated from the `ast`, Gen/LocalFacts.lean) -/
+
+/-- the frequency operators compare the reference with a layer value by `ref > item`, `ref == item`,
+    `ref < item`: exact comparisons of the two numbers, never a call such as `np.isclose` -/
+theorem local_ops_use_exact_comparisons :
+    Gen.lesserShape.cmp = .gt ∧ Gen.equalShape.cmp = .eq ∧ Gen.greaterShape.cmp = .lt := by decide
+
+/-- every operator writes NaN exactly under `np.isnan(comb).any()` (rank: or beyond the tuple) -/
+theorem nan_tests_are_any : ∀ p ∈ Gen.localNanTests, p.2 = NanTest.anyNan := by decide
+/-- in particular `combine`: not e.g. `np.isnan(sum(comb))`, which is also NaN for +inf next to -inf -/
+theorem combine_nan_test_is_any : Gen.combineShape.nanTest = .anyNan := by decide
+/-- all nine operators iterate the selected layers in lock-step in index order (`order='C'`, D11), build the
+    cell tuples with `.item()`, and reshape by the column count -/
+theorem iteration_is_index_order :
+    Gen.localFrames.map (·.1) = ["cell_stats", "combine", "lesser_frequency", "equal_frequency", "greater_frequency",
+      "lowest_position", "highest_position", "popularity", "rank"]
+    ∧ ∀ p ∈ Gen.localFrames, p.2 = ⟨true, .c, true, true⟩ := by decide
+/-- counters start at 0 and step by 1, positions are `index + 1` of the first min / max, rank indexes the sorted
+    tuple at `ref - 1` and is NaN from `ref - 1 >= len`, combine numbers from 1 by 1 through the dictionary -/
+theorem shapes_are_canonical :
+    Gen.lesserShape = ⟨true, .anyNan, .gt, 0, 1, true⟩ ∧ Gen.equalShape = ⟨true, .anyNan, .eq, 0, 1, true⟩
+    ∧ Gen.greaterShape = ⟨true, .anyNan, .lt, 0, 1, true⟩
+    ∧ Gen.lowestShape = ⟨true, .anyNan, .min, 1⟩ ∧ Gen.highestShape = ⟨true, .anyNan, .max, 1⟩
+    ∧ Gen.rankShape = ⟨true, .anyNan, -1, .ge, true⟩
+    ∧ Gen.combineShape = ⟨true, .anyNan, 1, 1, true⟩
+    ∧ Gen.popularityShape = ⟨true, .anyNan⟩
+    ∧ Gen.statsShape = ⟨true, [("max", "max"), ("mean", "mean"), ("median", "median"), ("min", "min"), ("std", "std"), ("sum", "sum")], true⟩ := by
+  decide
+
+/-- the interpretation of the shapes found in the source is the hand model -/
+theorem generated_freq_is_model :
+    freqCellS Gen.lesserShape = lesserCell ∧ freqCellS Gen.equalShape = equalCell ∧ freqCellS Gen.greaterShape = greaterCell := by
+  have hgt : ∀ r : Rat, cmpS .gt r = fun x => decide (x < r) := fun r => by funext x; rfl
+  have heq : ∀ r : Rat, cmpS .eq r = fun x => decide (r = x) := fun r => by funext x; rfl
+  have hlt : ∀ r : Rat, cmpS .lt r = fun x => decide (r < x) := fun r => by funext x; rfl
+  refine ⟨?_, ?_, ?_⟩ <;> funext ref c <;> cases ref <;>
+    simp only [freqCellS, Gen.lesserShape, Gen.equalShape, Gen.greaterShape, nanS, hgt, heq, hlt, lesserCell, equalCell,
+      greaterCell, freqCell, lesserCount, equalCount, greaterCount, Nat.zero_add, Nat.one_mul] <;> rfl
+
+theorem generated_pos_is_model : posCellS Gen.lowestShape = lowestCell ∧ posCellS Gen.highestShape = highestCell := by
+  refine ⟨?_, ?_⟩ <;> funext c <;>
+    simp [posCellS, Gen.lowestShape, Gen.highestShape, nanS, selS, lowestCell, highestCell, lowestPos, highestPos]
+
+theorem generated_rank_is_model : rankCellS Gen.rankShape = rankCellR := by
+  funext ref c
+  simp [rankCellS, Gen.rankShape, nanS, cmpIntS, rankCellR, Int.sub_eq_add_neg]
+
+theorem generated_combine_is_model : combineS Gen.combineShape = combine := by
+  have h : combineStepS Gen.combineShape = combineStep := by
+    funext st c
+    simp [combineStepS, Gen.combineShape, nanS, combineStep]
+  funext n layers
+  simp only [combineS, combine, combineRun, h]
+  rfl
 
 /-! ### per_cell: the output at a cell is a function of the layers at that cell only -/
 
@@ -96,12 +159,16 @@ theorem per_cell_popularity (ref : List Int) (n : Nat) (layers : List (List V)) 
 
 theorem nan_absorbs (c : List V) (h : none ∈ c) :
     (∀ s, statCell s c = none)
-    ∧ (∀ ref, lesserCell ref c = none ∧ equalCell ref c = none ∧ greaterCell ref c = none)
-    ∧ lowestCell c = none ∧ highestCell c = none
-    ∧ (∀ ref, rankCellR ref c = .ok none ∧ popularityCellR ref c = .ok none) := by
+    ∧ (∀ ref, freqCellS Gen.lesserShape ref c = none ∧ freqCellS Gen.equalShape ref c = none
+          ∧ freqCellS Gen.greaterShape ref c = none)
+    ∧ posCellS Gen.lowestShape c = none ∧ posCellS Gen.highestShape c = none
+    ∧ (∀ ref, rankCellS Gen.rankShape ref c = .ok none ∧ popularityCellR ref c = .ok none)
+    ∧ (∀ st, (combineStepS Gen.combineShape st c).out = st.out ++ [none]) := by
+  rw [generated_freq_is_model.1, generated_freq_is_model.2.1, generated_freq_is_model.2.2, generated_pos_is_model.1,
+    generated_pos_is_model.2, generated_rank_is_model]
   have hn : anyNaN c = true := anyNaN_iff_mem.mpr h
   simp [statCell, lesserCell, equalCell, greaterCell, freqCell, lowestCell, highestCell, rankCellR,
-    popularityCellR, hn]
+    popularityCellR, hn, combineStepS, Gen.combineShape, nanS]
 
 /-- conversely, a tuple of numbers never gives NaN for the statistics, frequencies and positions -/
 theorem no_spurious_nan (xs : List Rat) (s : Stat) (r : Rat) :
@@ -144,11 +211,13 @@ theorem median_spec (xs : List Rat) (hne : xs ≠ []) :
 /-- lesser + equal + greater = number of data layers (for a numeric reference and no NaN) -/
 theorem freq_sum (r : Rat) (xs : List Rat) :
     ∃ a b g : Nat,
-      lesserCell (some r) (xs.map some) = some (a : Rat) ∧ equalCell (some r) (xs.map some) = some (b : Rat)
-      ∧ greaterCell (some r) (xs.map some) = some (g : Rat)
+      freqCellS Gen.lesserShape (some r) (xs.map some) = some (a : Rat)
+      ∧ freqCellS Gen.equalShape (some r) (xs.map some) = some (b : Rat)
+      ∧ freqCellS Gen.greaterShape (some r) (xs.map some) = some (g : Rat)
       ∧ a = xs.countP (fun x => decide (x < r)) ∧ b = xs.countP (fun x => decide (x = r))
       ∧ g = xs.countP (fun x => decide (r < x))
       ∧ a + b + g = xs.length := by
+  rw [generated_freq_is_model.1, generated_freq_is_model.2.1, generated_freq_is_model.2.2]
   refine ⟨lesserCount r xs, equalCount r xs, greaterCount r xs, ?_, ?_, ?_, rfl, ?_, rfl, ?_⟩
   · simp [lesserCell, freqCell]
   · simp [equalCell, freqCell]
@@ -171,10 +240,11 @@ theorem freq_sum (r : Rat) (xs : List Rat) :
 /-! ### positions: 1-based index of the FIRST minimum / maximum -/
 
 theorem lowest_first (xs : List Rat) (hne : xs ≠ []) :
-    lowestCell (xs.map some) = some ((lowestPos xs : Nat) : Rat)
+    posCellS Gen.lowestShape (xs.map some) = some ((lowestPos xs : Nat) : Rat)
     ∧ ∃ (h1 : 1 ≤ lowestPos xs) (h2 : lowestPos xs - 1 < xs.length),
         (∀ x ∈ xs, xs[lowestPos xs - 1] ≤ x)
         ∧ ∀ j (hj : j < lowestPos xs - 1), xs[lowestPos xs - 1] < xs[j] := by
+  rw [generated_pos_is_model.1]
   refine ⟨by simp [lowestCell], ?_⟩
   obtain ⟨h, he, hfirst⟩ := idxOf_first (minOf_mem hne)
   have hp : lowestPos xs - 1 = xs.idxOf (minOf xs) := by simp [lowestPos]
@@ -187,10 +257,11 @@ theorem lowest_first (xs : List Rat) (hne : xs ≠ []) :
     rw [he]; grind
 
 theorem highest_first (xs : List Rat) (hne : xs ≠ []) :
-    highestCell (xs.map some) = some ((highestPos xs : Nat) : Rat)
+    posCellS Gen.highestShape (xs.map some) = some ((highestPos xs : Nat) : Rat)
     ∧ ∃ (h1 : 1 ≤ highestPos xs) (h2 : highestPos xs - 1 < xs.length),
         (∀ x ∈ xs, x ≤ xs[highestPos xs - 1])
         ∧ ∀ j (hj : j < highestPos xs - 1), xs[j] < xs[highestPos xs - 1] := by
+  rw [generated_pos_is_model.2]
   refine ⟨by simp [highestCell], ?_⟩
   obtain ⟨h, he, hfirst⟩ := idxOf_first (maxOf_mem hne)
   have hp : highestPos xs - 1 = xs.idxOf (maxOf xs) := by simp [highestPos]
@@ -208,13 +279,14 @@ theorem highest_first (xs : List Rat) (hne : xs ≠ []) :
     the unique layer value `v` with fewer than `ref` values strictly below it and at least `ref`
     values at or below it (the ref-th smallest, ties counted) -/
 theorem rank_is_sorted_nth (xs : List Rat) (ref : Int) (h1 : 1 ≤ ref) (h2 : ref ≤ xs.length) :
-    ∃ v, rankCellR ref (xs.map some) = .ok (some v)
+    ∃ v, rankCellS Gen.rankShape ref (xs.map some) = .ok (some v)
       ∧ (sorted xs)[(ref - 1).toNat]? = some v
       ∧ v ∈ xs
       ∧ xs.countP (fun x => decide (x < v)) < ref.toNat
       ∧ ref.toNat ≤ xs.countP (fun x => decide (x ≤ v))
       ∧ ∀ w, xs.countP (fun x => decide (x < w)) < ref.toNat →
              ref.toNat ≤ xs.countP (fun x => decide (x ≤ w)) → w = v := by
+  rw [generated_rank_is_model]
   have hk : (ref - 1).toNat < (sorted xs).length := by rw [sorted_length]; omega
   refine ⟨(sorted xs)[(ref - 1).toNat], ?_, by simp, ?_, ?_, ?_, ?_⟩
   · have : ¬ ((xs.length : Int) ≤ ref - 1) := by omega
@@ -234,7 +306,8 @@ theorem rank_is_sorted_nth (xs : List Rat) (ref : Int) (h1 : 1 ≤ ref) (h2 : re
 
 /-- a reference beyond the number of layers gives NaN -/
 theorem rank_beyond (xs : List Rat) (ref : Int) (h : (xs.length : Int) < ref) :
-    rankCellR ref (xs.map some) = .ok none := by
+    rankCellS Gen.rankShape ref (xs.map some) = .ok none := by
+  rw [generated_rank_is_model]
   have : (xs.length : Int) ≤ ref - 1 := by omega
   simp [rankCellR, this]
 
@@ -244,9 +317,10 @@ theorem rank_beyond (xs : List Rat) (ref : Int) (h : (xs.length : Int) < ref) :
     NaN-free tuples in order of first occurrence (row-major scan), a cell's id is 1 + the position of
     its tuple in `D` (NaN for a tuple with a NaN) and `attrs['key']` is `D` numbered from 1 -/
 theorem combine_eq_spec (n : Nat) (layers : List (List V)) :
-    combine n layers =
+    combineS Gen.combineShape n layers =
       ((zipCells n layers).map (specId (dedup (tuples (zipCells n layers)))),
        ((dedup (tuples (zipCells n layers))).zipIdx 1).map fun p => (p.2, p.1)) := by
+  rw [generated_combine_is_model]
   have h := combine_fold (zipCells n layers) ⟨[], 1, []⟩ [] rfl rfl
   have hf : (dedup (tuples (zipCells n layers))).filter (fun t => decide (t ∉ ([] : List (List Rat))))
       = dedup (tuples (zipCells n layers)) := List.filter_eq_self.mpr (by simp)
@@ -340,6 +414,9 @@ theorem combine_key_inverse (cells : List (List V)) (c : List V) (hc : c ∈ cel
 def exLayers : List (List V) := [[some 3, some 1], [some 1, none], [some 1, some 1]]
 
 example : cellStats .max 2 exLayers = [some 3, none] := by decide
+example : (zipCells 2 exLayers).map (freqCellS Gen.equalShape (some 1)) = [some 2, none] := by decide
+example : combineS Gen.combineShape 3 [[some 1, some 2, some 1], [some 7, none, some 7]]
+    = ([some 1, none, some 1], [(1, [1, 7])]) := by decide
 example : lowestPosition 2 exLayers = [some 2, none] := by decide
 example : lesserFrequency [some 2, some 2] 2 exLayers = [some 2, none] := by decide
 example : rank [2, 1] 2 [[some 3, some 5], [some 1, some 4], [some 2, some 6]] = some [some 2, some 4] := by decide
